@@ -342,6 +342,18 @@ def build_world(case):
         unc = w["unc"] and rng.random() < 0.6
         sc.add_objects(scen.rand_obstacle(rng, 500 + i, role=role, shape_kinds=kinds, uncertain=unc,
                                           t0=rng.choice([0, 0, 1, 2, 4, 6]), interval_occ=bool(w.get("itv"))))
+    if w.get("openring"):
+        # occupancy polygons that were re-shaped in place through the public vertices setter, with the ring left open
+        # (the setter stores the array as given; the constructor closes it)
+        r2 = random.Random(case["seed"] ^ 0x77)
+        for o in sc.obstacles:
+            p = getattr(o, "prediction", None)
+            if isinstance(p, SetBasedPrediction):
+                for oc in p.occupancy_set:
+                    shapes = oc.shape.shapes if isinstance(oc.shape, ShapeGroup) else [oc.shape]
+                    for sh in shapes:
+                        if isinstance(sh, Polygon) and r2.random() < 0.7:
+                            sh.vertices = np.array(sh.vertices[:-1], dtype=float)
     lids = [la.lanelet_id for la in sc.lanelet_network.lanelets]
     pps = scen.rand_planning_problem_set(rng, n=w["npp"], lanelet_ids=lids or None)
     return sc, pps
@@ -353,7 +365,7 @@ def rand_world(rng):
             "roles": [rng.choice(["static", "dynamic", "dynamic", "dynamic_set", "dynamic_set", "dynamic_none", "env",
                                   "phantom"]) for _ in range(n)],
             "unc": rng.random() < 0.3, "groups": rng.random() < 0.3, "npp": rng.randint(1, 3),
-            "itv": rng.random() < 0.35}
+            "itv": rng.random() < 0.35, "openring": rng.random() < 0.3}
 
 
 def last_step(pred):
